@@ -10,6 +10,7 @@ theorem skel_OAuthProxy_OAuthCallback_ok : skel_OAuthProxy_OAuthCallback = ([
   "return",
   "req.Form.Get",
   "if errorString != \"\"",
+  "fmt.Sprintf",
   "p.ErrorPage",
   "return",
   "decodeState",
@@ -64,6 +65,8 @@ theorem skel_OAuthProxy_doOAuthStart_ok : skel_OAuthProxy_doOAuthStart = ([
   "if err != nil",
   "p.ErrorPage",
   "return",
+  "extraParams.Add",
+  "extraParams.Add",
   "cookies.NewCSRF",
   "if err != nil",
   "p.ErrorPage",
@@ -99,5 +102,49 @@ theorem oauthStart_verifierArgs_ok : oauthStart_verifierArgs = (["96"] : List St
 theorem newCSRF_nonceArgs_ok : newCSRF_nonceArgs = (["32", "32"] : List String) := rfl
 
 theorem asciiCharset_ok : asciiCharset = ("-.0123456789ABCDEFGHIJKLMNOPQRSTUVWXYZ_abcdefghijklmnopqrstuvwxyz~" : String) := rfl
+
+theorem skel_NewCSRF_ok : skel_NewCSRF = ([
+  "encryption.Nonce",
+  "if err != nil",
+  "return nil, err",
+  "encryption.Nonce",
+  "if err != nil",
+  "return nil, err",
+  "return &csrf{ OAuthState: state, OIDCNonce: nonce, CodeVerifier: co, nil"] : List String) := rfl
+
+theorem skel_CheckNonce_ok : skel_CheckNonce = ([
+  "return hmac.Equal([]byte(HashNonce(nonce)), []byte(hashed))",
+  "hmac.Equal"] : List String) := rfl
+
+theorem skel_HashNonce_ok : skel_HashNonce = ([
+  "if nonce == nil",
+  "return \"\"",
+  "sha256.New",
+  "hasher.Write",
+  "hasher.Sum",
+  "return base64.RawURLEncoding.EncodeToString(sum)",
+  "base64.RawURLEncoding.EncodeToString"] : List String) := rfl
+
+theorem skel_ProviderData_checkNonce_ok : skel_ProviderData_checkNonce = ([
+  "if err != nil",
+  "return fmt.Errorf(\"id_token claims extraction failed: %v\", err)",
+  "if err != nil",
+  "extractor.GetClaimInto",
+  "return fmt.Errorf(\"could not extract nonce from ID Token: %v\", err)",
+  "if !s.CheckNonce(nonce)",
+  "s.CheckNonce",
+  "return errors.New(\"id_token nonce claim does not match the session",
+  "errors.New",
+  "return nil"] : List String) := rfl
+
+theorem skel_OIDCProvider_Redeem_ok : skel_OIDCProvider_Redeem = ([
+  "if err != nil",
+  "return nil, err",
+  "if codeVerifier != \"\"",
+  "c.Exchange",
+  "if err != nil",
+  "return nil, fmt.Errorf(\"token exchange failed: %v\", err)",
+  "return p.createSession(ctx, token, false)",
+  "p.createSession"] : List String) := rfl
 
 end O2P.Expect.C05
